@@ -1133,6 +1133,9 @@ fn run_history(args: &Args, out: &mut Out, pools: &mut Pools, hidx: u64) -> Resu
         if s.info.filters.iter().any(|f| f.pred.context_dependent()) {
             out.count("stacks_with_context_dependent_filters", 1);
         }
+        if s.info.filters.iter().any(|f| f.pred.kind().contains("curreg")) {
+            out.count("stacks_with_a_filter_that_notes_the_span_callsites_it_is_offered", 1);
+        }
         for f in &s.info.filters {
             out.set("filter_kinds", f.pred.kind());
         }
